@@ -16,7 +16,7 @@ DECLARED = {
 # initialiser kinds that cannot take part in a containment cycle (one line of reason each)
 CANNOT_CYCLE = {
     "None": "no type reference",
-    "Simple": "only produced for elementary types with a constant initial value (`a : INT := 5`); elementary types have no members",
+    "Simple": "produced for elementary types with a constant initial value (`a : INT := 5`; elementary types have no members) and for VAR_EXTERNAL references (see the reference-kind clause: they must not add an edge)",
     "String": "STRING/WSTRING have no members",
     "EnumeratedValues": "inline enumeration: no reference to another declaration",
     "EnumeratedType": "refers to an enumeration; enumerations have no members, so no cycle can pass through them",
@@ -119,9 +119,35 @@ def rule_edges(ctx, rep):
         for l in labs:
             arm_of[l] = succ
     other_arms = set(arm_of.values())
+    # kinds that the grammar uses for *references* (VAR_EXTERNAL): a reference to a declaration is not containment, so such a kind may
+    # not add an edge (the builder does not look at var_type) - otherwise `A { VAR b : B }`, `B { VAR_EXTERNAL a : A }` is "recursive"
+    ref_kinds = {}
+    g = ctx.peg
+    for rule, seq in g.all_seqs():
+        code = " ".join(t.v for t in seq.action.code) if seq.action is not None else ""
+        if not re.search(r"VariableType\s*::\s*External", code):
+            continue
+        for e in seq.elems:
+            if e.label and e.prim.kind == "call" and e.prim.name in g.rules:
+                sub = g.rules[e.prim.name]
+                subcode = []
+                g.walk_elems(sub.expr, lambda e2, s2, c2: None)
+                for r2, s2 in g.all_seqs():
+                    if r2.name == sub.name and s2.action is not None:
+                        subcode.append(" ".join(t.v for t in s2.action.code))
+                for k in re.findall(r"InitialValueAssignmentKind\s*::\s*(\w+)", " ".join(subcode)):
+                    ref_kinds[k] = "%s (via %s)" % (rule.name, sub.name)
     for v in adt["variants"]:
         name = v["name"]
         succ = arm_of.get(name, arm_of.get("otherwise"))
+        if name in ref_kinds and succ is not None:
+            region0 = b.reachable(succ, avoid=other_arms - {succ})
+            inst0 = "InitialValueAssignmentKind::%s|reference kind" % name
+            if region0 & edge_bbs and len([l for l, s_ in arm_of.items() if s_ == succ]) == 1:
+                r.finding(inst0 + "|adds-edge", "%s:%d" % (b.f["file"], b.f["line"]), "the grammar builds VAR_EXTERNAL declarations with this kind (%s); an edge for it turns a reference "
+                          "into containment: an acyclic unit whose inner block refers back to an outer one through VAR_EXTERNAL is reported as recursive" % ref_kinds[name])
+            else:
+                r.ok(inst0, "%s:%d" % (b.f["file"], b.f["line"]), "used for VAR_EXTERNAL references (%s); adds no edge" % ref_kinds[name])
         inst = "InitialValueAssignmentKind::%s" % name
         where = "%s:%d" % (b.f["file"], b.f["line"])
         if succ is None:
